@@ -281,6 +281,10 @@ func orderProgram(r *mon.Rand) (src string, tags []string) {
 		"print(math.sum({0.1, 0.2, 0.3, 0.4, 0.5, 0.6, 0.7}), math.sum({1e16, 1.0, -1e16, 3.0}), math.sum({1, 2.5, 3}))", "print(try(func() { return math.sum({\"a\", [1], {}, nil}) }, func(e) { return string(e) }), try(func() { return math.sum(s) }, func(e) { return string(e) }))",
 		"print(math.sum(m.values()), math.max(1, 2), try(func() { return math.sum(set(m.values())) }, func(e) { return string(e) }))",
 		"print(os.environ())", "print(os.environ()[0], len(os.environ()), os.getenv(\"GAMMA\"), os.args())", "for i, e := range os.environ() { tick(e) }",
+		"print(try(func() { return encode([{\"a\": 1, \"b\": 2}, {\"a\": 3, \"zq\": 4, \"zb\": 5, \"zk\": 6, \"zc\": 7, \"b\": 8, \"zz\": 9, \"ze\": 10}, {\"yq\": 1, \"yb\": 2, \"ya\": 3, \"a\": 4}], \"csv\") }, func(e) { return string(e) }))",
+		"print(try(func() { return encode([m, {\"a\": 1, \"k1\": 2, \"k9\": 3, \"k4\": 4, \"k7\": 5, \"k2\": 6}, m.copy()], \"csv\") }, func(e) { return string(e) }))",
+		"print(try(func() { return encode([{\"x\": \"1\"}, m], \"csv\") }, func(e) { return string(e) }), try(func() { return encode(list(s), \"csv\") }, func(e) { return string(e) }))",
+		"print(try(func() { return decode(encode([{\"h3\": \"a\", \"h1\": \"b\", \"h2\": \"c\"}, {\"h1\": \"d\", \"n5\": \"e\", \"n2\": \"f\", \"n8\": \"g\", \"n1\": \"h\"}], \"csv\"), \"csv\") }, func(e) { return string(e) }))",
 		"print(s.union(set(m.values())))", "print(sorted(m.values()))", "print(string(keys(m)), sprintf(\"%v %v\", m, s))", "print(m.get(\"a\", 0), m.pop(\"b\", -1), m.setdefault(\"q\", tick(200)), m)",
 	}
 	n := 3 + r.Intn(8)
